@@ -154,6 +154,7 @@ func (s *h2srv) serve(c net.Conn) {
 			block = block[n:]
 		}
 	}
+	cx := &h2cx{mu: &wmu, fr: fr, flush: flush, writeHeaders: writeHeaders}
 	// flow control: the client's stream / connection receive windows as this peer sees them
 	connWin, initWin := int64(65535), int64(65535)
 	streamWin := map[uint32]int64{}
@@ -228,6 +229,10 @@ func (s *h2srv) serve(c net.Conn) {
 			}
 			x := v.(*exch)
 			sid := f.StreamID
+			if x.grp != nil { // several exchanges in flight: the group plays the frames once all have arrived
+				x.grp.arrive(x, cx, sid)
+				continue
+			}
 			fmu.Lock()
 			streamWin[sid] = initWin
 			fmu.Unlock()
